@@ -1,5 +1,6 @@
 import Tahoe.Base.DrvUtil
 import Tahoe.Mutable.PublishRun
+import Tahoe.Mutable.WireTestv
 /-! Driver for C47.
 
     `pub K CS VERINFO WRITERS ev ev …`
@@ -12,6 +13,7 @@ import Tahoe.Mutable.PublishRun
             | sh@srv:L:T|F (executed — wrote or refused — and the answer lost)
         → as `pub`, plus ;slots that now hold the new version (sorted, srv.sh)
     `proxy A:T|F:rd | B | L:T|F`  → what the write proxy's Deferred fires with: answer:T|F:rd or failure
+    `testv OFF LEN SPECHEX SHAREHEX|N` → the wire 4-tuple `off,len,eq,spechex` and the server's verdict T|F on that share
     `wog GOAL`  → the write proxies `publish()` creates for a goal (sorted sh@srv)
     `goal TOTAL BAD FULL GOAL`
         BAD = server list, FULL = srv:T|F,… (permuted list with upload_permitted()), GOAL = srv.sh,…
@@ -102,6 +104,16 @@ def handle : List String → String
       | some (wrote, rd) => "answer:" ++ (if wrote then "T" else "F") ++ ":" ++
           joinOr "," ((sortBy pairLt rd).map (fun x => s!"{x.1}={x.2}"))
       | none => "failure")
+    | none => "bad-op"
+  | ["testv", off, len, spec, share] =>
+    match (do
+      let sp ← bytesOfHex spec
+      let t : Tahoe.Mutable.Wire.Testv := { offset := ← off.toNat?, length := ← len.toNat?, specimen := sp.map UInt8.toNat }
+      let sh ← if share == "N" then some none else (bytesOfHex share).map (fun b => some (b.map UInt8.toNat))
+      let w := Tahoe.Mutable.Wire.wireOf t
+      pure (s!"{w.1},{w.2.1},{w.2.2.1}," ++ hexOfBytes (w.2.2.2.map UInt8.ofNat) ++ ";" ++
+            (if Tahoe.Mutable.Wire.passes sh w then "T" else "F"))) with
+    | some s => s
     | none => "bad-op"
   | ["wog", goal] =>
     match parseList (parsePair ".") "," goal with
